@@ -45,6 +45,15 @@ type issued struct {
 	group  string // settle probes are judged per batch: a wire that died (killed connection) fails one command before it is re-dialled
 	err    string // outcome of the call
 	step   int
+	need   string // role the receiving node must have answered: "master" (primary traffic) or "slave" (replica traffic)
+	api    string // client method the command went through: Do, DoMulti, DoCache, DoMultiCache
+	// calls that are outstanding while a fail-over happens (see spanCalls)
+	span      bool
+	fault     string // what made the first attempt fail or hang: delay, close, loading
+	eligible  bool   // the client promises to retry it: retries enabled and (read-only command or client-side-caching method)
+	delivered bool   // the +switch-master of that fail-over reached the client
+	newMaster string // the master the sentinels named in it
+	faulted   bool   // (judge) the server logged the fault for it
 }
 
 type sentinelCfg struct {
@@ -74,6 +83,13 @@ type world struct {
 	seq    int
 	name   string
 	trace  []string
+
+	rng2    *rand.Rand // choices of the later-added situations; only used by the history's own goroutine
+	mix     uint64     // per-history constant that spreads the client methods over the traffic
+	pinned  bool       // mode 2: read-only commands on keys "pk..." are primary traffic (SendToReplicas says no)
+	retry   bool       // the client retries
+	faultOn atomic.Bool
+	held    []int64 // connections on which a node is sitting on the reply of an outstanding call (under mu)
 }
 
 func (w *world) logf(format string, a ...any) {
@@ -195,14 +211,14 @@ func (w *world) traffic(client rueidis.Client, step int, class string, n int, se
 		w.seq++
 		seq := w.seq
 		uid := fmt.Sprintf("%s-%s-%d", w.name, class, seq)
-		is := &issued{class: class, stamp: mon.Stamp(), at: time.Now(), settle: settle, step: step}
+		key := fmt.Sprintf("k%d", seq%5)
+		is := &issued{class: class, stamp: mon.Stamp(), at: time.Now(), settle: settle, step: step, need: w.needFor(class, key), api: "Do"}
 		if len(after) > 0 {
 			is.after = after[0]
 			is.group = fmt.Sprintf("%s/%d/%s", w.name, step, after[0])
 		}
 		w.issued[uid] = is
 		w.mu.Unlock()
-		key := fmt.Sprintf("k%d", seq%5)
 		ctx, cancel := context.WithTimeout(context.Background(), 3*time.Second)
 		var err error
 		if class == "w" {
@@ -217,6 +233,157 @@ func (w *world) traffic(client rueidis.Client, step int, class string, n int, se
 			w.mu.Unlock()
 		}
 	}
+}
+
+// needFor says which role the node receiving a command must have answered: replica traffic is what the client's options
+// send to replicas (everything with ReplicaOnly, whatever SendToReplicas accepts otherwise), the rest is primary traffic.
+func (w *world) needFor(class, key string) string {
+	switch w.mode {
+	case 1:
+		return "slave"
+	case 2:
+		if class == "r" && !(w.pinned && strings.HasPrefix(key, "pk")) {
+			return "slave"
+		}
+	}
+	return "master"
+}
+
+var apis = []string{"Do", "DoMulti", "DoCache", "DoMultiCache"}
+
+// apiFor spreads the four client methods over the calls (a pure function of the history and the call number: it is
+// also used by the background goroutine). Primary-only commands are not cacheable: Do / DoMulti only.
+func (w *world) apiFor(class string, n int) string {
+	h := (uint64(n)*0x9E3779B97F4A7C15 + w.mix) >> 33
+	if class == "w" {
+		return apis[h%2]
+	}
+	return apis[h%4]
+}
+
+// call sends one client call of the given method carrying 1-3 commands of one class (one command for Do / DoCache), each
+// with its own unique id. Read-only commands are VERIF.ECHO <key> <uid> through Do / DoMulti and HGET <key> <uid> (a
+// cacheable command, never a cache hit because the field is unique) through DoCache / DoMultiCache. marker != "" makes
+// the ids end in "~"+marker, which the fault rules of spanCalls match. fill completes the bookkeeping entry.
+func (w *world) call(client rueidis.Client, step int, class, api, marker string, fill func(*issued)) {
+	n := 1
+	if api == "DoMulti" || api == "DoMultiCache" {
+		w.mu.Lock()
+		n = 1 + (w.seq+int(w.mix%7))%3
+		w.mu.Unlock()
+	}
+	uids := make([]string, n)
+	keys := make([]string, n)
+	iss := make([]*issued, n)
+	w.mu.Lock()
+	pin := false
+	for i := 0; i < n; i++ {
+		w.seq++
+		seq := w.seq
+		if i == 0 {
+			pin = w.pinned && class == "r" && (uint64(seq)*0xD6E8FEB86659FD93+w.mix)>>40%2 == 0
+		}
+		uids[i] = fmt.Sprintf("%s-%s-%d", w.name, class, seq)
+		if marker != "" {
+			uids[i] += "~" + marker
+		}
+		keys[i] = fmt.Sprintf("k%d", seq%5)
+		if pin { // one batch is either all primary or all replica traffic
+			keys[i] = "p" + keys[i]
+		}
+		iss[i] = &issued{class: class, stamp: mon.Stamp(), at: time.Now(), step: step, need: w.needFor(class, keys[i]), api: api}
+		if fill != nil {
+			fill(iss[i])
+		}
+		w.issued[uids[i]] = iss[i]
+	}
+	w.mu.Unlock()
+	w.run.Observe("calls_"+api, 1)
+	ctx, cancel := context.WithTimeout(context.Background(), 3*time.Second)
+	errs := make([]error, n)
+	plain := func(i int) rueidis.Completed {
+		if class == "w" {
+			return client.B().Arbitrary("VERIF.WRITE").Keys(keys[i]).Args(uids[i]).Build()
+		}
+		return client.B().Arbitrary("VERIF.ECHO").Keys(keys[i]).Args(uids[i]).ReadOnly()
+	}
+	switch api {
+	case "Do":
+		errs[0] = client.Do(ctx, plain(0)).Error()
+	case "DoMulti":
+		cs := make([]rueidis.Completed, n)
+		for i := range cs {
+			cs[i] = plain(i)
+		}
+		for i, r := range client.DoMulti(ctx, cs...) {
+			errs[i] = r.Error()
+		}
+	case "DoCache":
+		errs[0] = client.DoCache(ctx, client.B().Hget().Key(keys[0]).Field(uids[0]).Cache(), time.Minute).Error()
+	case "DoMultiCache":
+		cs := make([]rueidis.CacheableTTL, n)
+		for i := range cs {
+			cs[i] = rueidis.CT(client.B().Hget().Key(keys[i]).Field(uids[i]).Cache(), time.Minute)
+		}
+		for i, r := range client.DoMultiCache(ctx, cs...) {
+			errs[i] = r.Error()
+		}
+	}
+	cancel()
+	w.mu.Lock()
+	for i, err := range errs {
+		if err != nil && !rueidis.IsRedisNil(err) { // the hash field does not exist: a nil reply is an answer
+			iss[i].err = err.Error()
+		}
+	}
+	w.mu.Unlock()
+}
+
+// mixed is plain traffic like traffic(), spread over the four client methods.
+func (w *world) mixed(client rueidis.Client, step int, class string, n int) {
+	for i := 0; i < n; i++ {
+		w.mu.Lock()
+		s := w.seq
+		w.mu.Unlock()
+		w.call(client, step, class, w.apiFor(class, s), "", nil)
+	}
+}
+
+// spanCalls starts 2-5 client calls (each its own goroutine, method and class) whose first attempt meets a failing node:
+// the reply is delayed (the call is in flight), the connection is closed on it, or the node answers LOADING. The caller
+// then runs the fail-over; whatever the client does with these calls afterwards (re-sending them is its retry contract)
+// is traffic routed after the switch.
+func (w *world) spanCalls(client rueidis.Client, step int, wg *sync.WaitGroup) []*issued {
+	var started []*issued
+	n := 2 + w.rng2.Intn(4)
+	cl := w.classes()
+	var mu sync.Mutex
+	for i := 0; i < n; i++ {
+		class := cl[w.rng2.Intn(len(cl))]
+		if len(cl) > 1 && w.rng2.Intn(3) == 0 {
+			class = "r" // two in three read-only: those are the calls every method retries
+		}
+		api := apis[w.rng2.Intn(4)]
+		if class == "w" {
+			api = apis[w.rng2.Intn(2)]
+		}
+		fault := []string{"delay", "slow", "close", "loading"}[w.rng2.Intn(4)]
+		eligible := w.retry && (class == "r" || api == "DoCache" || api == "DoMultiCache")
+		wg.Add(1)
+		go func() {
+			defer wg.Done()
+			w.call(client, step, class, api, fault, func(is *issued) {
+				is.span, is.fault, is.eligible = true, fault, eligible
+				mu.Lock()
+				started = append(started, is)
+				mu.Unlock()
+			})
+		}()
+	}
+	synctest.Wait() // every call is parked: waiting for the delayed reply or for its first retry timer
+	mu.Lock()
+	defer mu.Unlock()
+	return append([]*issued(nil), started...)
 }
 
 func (w *world) classes() []string {
@@ -255,7 +422,27 @@ func history(run *mon.Run, name string, seed int64) (res caseResult) {
 	defer srv.Close()
 
 	w := &world{run: run, rng: rng, srv: srv, mode: rng.Intn(3), nodes: idxm, alive: map[string]bool{}, sdown: map[string]bool{}, issued: map[string]*issued{}, name: name, roleAt: map[int64]time.Time{}, slaveAnswers: map[string]int{}, dialer: map[int64]*net.Dialer{}}
+	// a second stream for the later-added situations: the histories drawn from rng stay what they were
+	w.rng2 = rand.New(rand.NewSource(seed ^ 0x5bd1e9955bd1e995))
+	w.mix = w.rng2.Uint64()
+	w.pinned = w.mode == 2 && w.rng2.Intn(2) == 0
+	// failing nodes for the calls of spanCalls (ids ending in ~delay, ~slow, ~close, ~loading), only while faultOn
+	spanRule := func(marker string, a fakeredis.Action) {
+		srv.Plan(&fakeredis.Rule{Name: "span-" + marker, Match: func(c *fakeredis.Conn, argv []string) bool {
+			return w.faultOn.Load() && len(argv) >= 3 && strings.HasSuffix(argv[2], "~"+marker)
+		}, Action: a})
+	}
+	spanRule("delay", fakeredis.Action{DelayReply: 40 * time.Millisecond})
+	spanRule("slow", fakeredis.Action{DelayReply: 1500 * time.Millisecond}) // longer than the second a closing connection waits for its pending replies
+	spanRule("close", fakeredis.Action{Close: true})
+	loading := resp.Err("LOADING Redis is loading the dataset in memory")
+	spanRule("loading", fakeredis.Action{Reply: &loading})
 	srv.OnEvent = func(e fakeredis.Event) {
+		if e.Kind == "fault" && (e.Note == "span-delay" || e.Note == "span-slow") {
+			w.mu.Lock()
+			w.held = append(w.held, e.Conn)
+			w.mu.Unlock()
+		}
 		if e.Kind == "reply" && len(e.Argv) > 0 && strings.EqualFold(e.Argv[0], "ROLE") {
 			w.mu.Lock()
 			w.roleAt[e.Seq] = time.Now()
@@ -334,11 +521,20 @@ func history(run *mon.Run, name string, seed int64) (res caseResult) {
 	opt.DisableCache = rng.Intn(2) == 0
 	opt.PipelineMultiplex = []int{-1, 0, 1}[rng.Intn(3)]
 	opt.DisableRetry = rng.Intn(2) == 0
+	w.retry = !opt.DisableRetry
 	switch w.mode {
 	case 1:
 		opt.ReplicaOnly = true
 	case 2:
 		opt.SendToReplicas = func(cmd rueidis.Completed) bool { return cmd.IsReadOnly() }
+		if w.pinned {
+			// read-only commands on keys "pk..." stay primary traffic
+			opt.SendToReplicas = func(cmd rueidis.Completed) bool {
+				a := cmd.Commands()
+				return cmd.IsReadOnly() && !(len(a) > 1 && strings.HasPrefix(a[1], "pk"))
+			}
+			run.Observe("clients_with_read_only_primary_traffic", 1)
+		}
 	}
 	var client rueidis.Client
 	var err error
@@ -368,6 +564,7 @@ func history(run *mon.Run, name string, seed int64) (res caseResult) {
 			w.traffic(client, st, "w", 6, w.cur, after)
 		}
 	}
+	var spans sync.WaitGroup // calls outstanding across a fail-over (spanCalls)
 	stopBg := make(chan struct{})
 	var bg sync.WaitGroup
 	if rng.Intn(2) == 0 {
@@ -382,7 +579,7 @@ func history(run *mon.Run, name string, seed int64) (res caseResult) {
 					return
 				default:
 				}
-				w.traffic(client, -1, cl[i%len(cl)], 1, "")
+				w.mixed(client, -1, cl[i%len(cl)], 1)
 				time.Sleep(time.Duration(5+i%40) * time.Millisecond)
 			}
 		}()
@@ -395,7 +592,7 @@ func history(run *mon.Run, name string, seed int64) (res caseResult) {
 		switch k {
 		case 0: // plain traffic
 			for _, c := range w.classes() {
-				w.traffic(client, st, c, 2+rng.Intn(3), "")
+				w.mixed(client, st, c, 2+rng.Intn(3))
 			}
 			kinds = append(kinds, "t")
 		case 1, 2, 3: // fail-over
@@ -430,9 +627,37 @@ func history(run *mon.Run, name string, seed int64) (res caseResult) {
 					return c.NodeAddr() == next && strings.EqualFold(a[0], "ROLE")
 				}, Action: fakeredis.Action{Reply: slaveReply(old)}})
 			}
+			// calls that are outstanding (in flight on a slow node, or waiting for their retry after a closed connection / a
+			// LOADING answer) while the fail-over happens
+			var spanned []*issued
+			// A call whose reply a node sits on stays in flight until the client itself closes the connection (when it
+			// switches) only in a clean fail-over of a settled master-only client announced once: closing a connection that
+			// does not answer takes the client up to a second while it holds its mutex, and a second goroutine waiting for
+			// that mutex (another event, a refresh) would keep the bubble's clock from advancing (harness limit, see
+			// DRIVER_GUIDE). Everywhere else the connections holding such calls drop before the switch is announced.
+			quiet := k == 1 && w.mode == 0 && settled
+			if w.rng2.Intn(5) < 3 {
+				w.mu.Lock()
+				w.held = nil
+				w.mu.Unlock()
+				w.faultOn.Store(true)
+				spanned = w.spanCalls(client, st, &spans)
+				w.faultOn.Store(false)
+				run.Observe("failovers_with_outstanding_calls", 1)
+			}
 			srv.Promote(next)
 			if crash {
 				w.setAlive(old, false)
+			}
+			w.mu.Lock()
+			held := w.held
+			w.held = nil
+			w.mu.Unlock()
+			if len(held) > 0 && !quiet {
+				for _, id := range held {
+					srv.Kill(id)
+				}
+				run.Observe("failovers_with_calls_in_flight_on_dropped_connections", 1)
 			}
 			// which sentinels learn of it: all (k=1,2) or all but some stale ones (k=3); stale ones keep reporting the old master,
 			// which now answers ROLE as slave (or is down)
@@ -462,6 +687,10 @@ func history(run *mon.Run, name string, seed int64) (res caseResult) {
 			if rng.Intn(3) == 0 {
 				burst = 2 + rng.Intn(3)
 			}
+			if len(held) > 0 && quiet {
+				burst = 1
+				run.Observe("failovers_with_calls_in_flight_until_the_client_closes", 1)
+			}
 			// sentinel announces re-configured replicas with +slave a little later; sometimes that event is not (yet) there
 			withSlave := rng.Intn(3) > 0
 			if !withSlave && w.mode != 0 {
@@ -475,6 +704,14 @@ func history(run *mon.Run, name string, seed int64) (res caseResult) {
 			}
 			w.logf("step %d failover %s -> %s crash=%v flip=%d stale=%d delivered=%d", st, old, next, crash, flip, len(stale), got)
 			kinds = append(kinds, fmt.Sprintf("f%d%v", k, got > 0))
+			if len(spanned) > 0 {
+				kinds[len(kinds)-1] += fmt.Sprintf("+x%d", len(spanned))
+				w.mu.Lock()
+				for _, is := range spanned {
+					is.delivered, is.newMaster = got > 0, next
+				}
+				w.mu.Unlock()
+			}
 			run.Observe("failovers", 1)
 			if flip > 0 {
 				run.Observe("failovers_with_role_flip", 1)
@@ -492,6 +729,7 @@ func history(run *mon.Run, name string, seed int64) (res caseResult) {
 					w.traffic(client, st, "w", 6, next, "failover")
 					settleProbes += 6
 				}
+				spans.Wait() // the outstanding calls end (their contexts bound them) before anything else changes
 			} else {
 				settled = false
 				run.Observe("switch_master_not_delivered", 1)
@@ -714,9 +952,10 @@ func history(run *mon.Run, name string, seed int64) (res caseResult) {
 			time.Sleep(10 * time.Millisecond)
 		}
 		for _, c := range w.classes() {
-			w.traffic(client, st, c, 1+rng.Intn(2), "")
+			w.mixed(client, st, c, 1+rng.Intn(2))
 		}
 	}
+	spans.Wait()
 	close(stopBg)
 	bg.Wait()
 	time.Sleep(time.Second)
@@ -782,8 +1021,15 @@ func (w *world) judge(log []fakeredis.Event) (nodesHit int) {
 	streakConn := map[string]int64{}  // node -> connection that gave that first wrong answer
 	closedAt := map[int64]int64{}     // conn -> seq of its close
 	reached := map[string]string{}      // uid -> node (first reception)
+	spanAt := map[string][]string{}     // uid of a call outstanding across a fail-over -> "node@seq" of every reception
 	for _, e := range log {
 		switch e.Kind {
+		case "fault":
+			if len(e.Argv) >= 3 && strings.HasPrefix(e.Note, "span-") {
+				if is := w.issued[e.Argv[2]]; is != nil {
+					is.faulted = true
+				}
+			}
 		case "accept":
 			accepted[e.Conn] = e.Seq
 		case "close":
@@ -831,7 +1077,7 @@ func (w *world) judge(log []fakeredis.Event) (nodesHit int) {
 			if len(e.Argv) == 1 && strings.EqualFold(e.Argv[0], "ROLE") && streakFirst[e.Node] != 0 && followUp[e.Node] == 0 {
 				followUp[e.Node] = e.Seq
 			}
-			if len(e.Argv) < 3 || !strings.HasPrefix(e.Argv[0], "VERIF.") {
+			if len(e.Argv) < 3 || !(strings.HasPrefix(e.Argv[0], "VERIF.") || e.Argv[0] == "HGET") {
 				continue
 			}
 			uid := e.Argv[2]
@@ -843,11 +1089,12 @@ func (w *world) judge(log []fakeredis.Event) (nodesHit int) {
 			if _, ok := reached[uid]; !ok {
 				reached[uid] = e.Node
 			}
-			need := "master"
-			if w.mode == 1 || (w.mode == 2 && is.class == "r") {
-				need = "slave"
+			need := is.need
+			if is.span {
+				spanAt[uid] = append(spanAt[uid], fmt.Sprintf("%s@%d", e.Node, e.Seq))
 			}
 			run.Observe(need+"_traffic_checked", 1)
+			run.Observe(need+"_traffic_checked_"+is.api, 1)
 			a := lastRole[e.Node]
 			wit := func(why string) map[string]any {
 				return map[string]any{"case": w.name, "why": why, "uid": uid, "node": e.Node, "conn": e.Conn, "seq": e.Seq, "needed_role": need, "mode": w.mode,
@@ -887,6 +1134,40 @@ func (w *world) judge(log []fakeredis.Event) (nodesHit int) {
 				}
 			}
 		}
+	}
+	// Calls that were outstanding when a +switch-master was delivered: the first attempt of each met a failing node before
+	// the switch. Where the client promises to go on with such a call (retries enabled, read-only or cacheable command,
+	// context alive for 3 s of virtual time, retryable failure), what it does with it afterwards is primary traffic routed
+	// after the switch, and the property sends that to the new master: the call must have been answered, or at least
+	// have been received by the new master. (The settle probes of the same fail-over are judged on the same footing.)
+	for uid, is := range w.issued {
+		if !is.span {
+			continue
+		}
+		run.Observe("outstanding_calls", 1)
+		if !is.delivered || is.need != "master" || !is.eligible || !is.faulted {
+			continue
+		}
+		run.Observe("outstanding_primary_calls_judged", 1)
+		run.Observe("outstanding_primary_calls_judged_"+is.api, 1)
+		run.Observe("outstanding_primary_calls_judged_fault_"+is.fault, 1)
+		moved := false
+		for _, at := range spanAt[uid] {
+			if strings.HasPrefix(at, is.newMaster+"@") {
+				moved = true
+			}
+		}
+		if moved {
+			run.Observe("outstanding_primary_calls_resent_to_new_master", 1)
+		}
+		if is.err == "" || moved {
+			continue
+		}
+		run.Violation("outstanding-call-not-moved-to-new-master", fmt.Sprintf("mode=%d api=%s fault=%s", w.mode, is.api, is.fault),
+			map[string]any{"case": w.name, "uid": uid, "api": is.api, "class": is.class, "first_attempt_met": is.fault, "call_error": is.err, "new_master": is.newMaster,
+				"received_by": spanAt[uid], "issued_at": is.stamp, "step": is.step,
+				"why": "the call was outstanding when +switch-master was delivered, the client retries it (retries enabled, retry-eligible command, 3 s context), yet it ended with an error without ever having been sent to the new master",
+				"trace": w.trace, "log": compact()})
 	}
 	// settle probes: issued a bounded virtual time after a delivered +switch-master whose target answers master, or after
 	// events that do not move the master; judged per batch of 6 (more than the wires of one connection)
@@ -947,7 +1228,7 @@ func TestC23(t *testing.T) {
 	run := mon.Start(t, "C23", "exploration",
 		"one real sentinel client per synctest bubble against fakeredis: 1 master + 1-3 replicas, 1-5 sentinels (some down, some stale), client mode master-only / ReplicaOnly / SendToReplicas, "+
 			"3-8 steps drawn from {traffic, fail-over with +switch-master (clean / new master answering ROLE slave 1-2 times / stale sentinels + crashed old master, events in bursts), loss of the sentinel in use, "+
-			"bursts of unrelated events (+sdown/-sdown/+reboot/+sentinel/other set), the settled master re-verified at the same address (+reboot master / +switch-master to itself) while it answers ROLE slave with non-sleeping primary traffic, then a real fail-over, replica s_down with a replica claiming master once, data connections killed}, optional concurrent traffic; every user command carries a unique id; "+
+			"bursts of unrelated events (+sdown/-sdown/+reboot/+sentinel/other set), the settled master re-verified at the same address (+reboot master / +switch-master to itself) while it answers ROLE slave with non-sleeping primary traffic, then a real fail-over, replica s_down with a replica claiming master once, data connections killed}, optional concurrent traffic; traffic goes through Do / DoMulti / DoCache / DoMultiCache (batches of 1-3, cacheable HGETs with unique fields), half of the SendToReplicas clients keep read-only commands on pk* keys primary; 3 of 5 fail-overs happen while 2-5 calls are outstanding whose first attempt met a slow node (reply delayed 40 / 1500 ms), a closed connection or a LOADING answer; every user command carries a unique id; "+
 			"the oracle replays the server log: role last answered by the receiving node, addresses named by sentinels, where the post-switch probes arrived; plus a real-time probe of event bursts of 8 and 40 during a refresh. A case is one history; non-trivial when a +switch-master was delivered and traffic reached >= 2 nodes")
 	defer run.Finish()
 	rueidis.VerifSetQueueType("flowbuffer") // set once: pipes are created from background goroutines too
@@ -968,5 +1249,7 @@ func TestC23(t *testing.T) {
 		burstProbe(run, 8)
 		burstProbe(run, 40)
 	}
-	run.Require("reverify_traffic_after_second_probe", "burst_probe_refresh_completed", "master_traffic_checked", "slave_traffic_checked", "switch_master_delivered", "settle_probes", "failovers_with_role_flip", "failovers_with_stale_sentinels", "sentinel_lost", "role_answers")
+	run.Require("reverify_traffic_after_second_probe", "burst_probe_refresh_completed", "master_traffic_checked", "slave_traffic_checked", "switch_master_delivered", "settle_probes", "failovers_with_role_flip", "failovers_with_stale_sentinels", "sentinel_lost", "role_answers",
+		"outstanding_primary_calls_judged_Do", "outstanding_primary_calls_judged_DoMulti", "outstanding_primary_calls_judged_DoCache", "outstanding_primary_calls_judged_DoMultiCache",
+		"outstanding_primary_calls_resent_to_new_master", "master_traffic_checked_DoCache", "master_traffic_checked_DoMultiCache", "master_traffic_checked_DoMulti", "slave_traffic_checked_DoCache", "slave_traffic_checked_DoMultiCache")
 }
